@@ -509,7 +509,7 @@ def run_op(spec):
     try:
         op = Op(spec, tmp)
         dry = observe(op, None, "OSError")
-        out = {"op": spec["op"], "doc": spec.get("doc", {}), "dry": dry, "faults": []}
+        out = {"op": spec["op"], "doc": spec.get("doc", {}), "dry": dry, "faults": [], "must_raise": spec.get("must_raise", False)}
         n = dry["ncalls"]
         want = spec.get("faults", "all")
         if want == "all":
